@@ -206,6 +206,22 @@ def gen_sequential(ctx):
             else:
                 ops.append("f")
         runs.append(seq_run(N, ops, "seq-rand"))
+    # (iii) requested sizes that are NOT a power-of-two number of cache lines (and not a multiple of
+    # the cache line): open rounds the ring up; the segment must be as large as the rounded ring.
+    # Histories that fill the ring to its last cache line, so that a segment shorter than the ring is
+    # written past its end (canary / ASan).
+    odd = [5 * 64, 6 * 64 + 1, 7 * 64, 9 * 64, 12 * 64 - 3, 20 * 64, 24 * 64 + 7, 33 * 64, 40 * 64, 48 * 64, 100, 2500]
+    for nbytes in odd:
+        N = vlib_geometry(nbytes)
+        for rep in range(2 if q else 12):
+            ops = []
+            while len(ops) < 24:          # (the Lean driver's run time grows steeply beyond ~32 operations)
+                k = rng.choice([max(3, N // 2 - 1), max(3, N // 2 - 1), max(3, N // 4), max(3, N // 3), 3, 5])
+                ops += ["a%d" % bytes_for(k, rng), "f"] if rng.random() < 0.7 else ["a%d" % bytes_for(k, rng)]
+            ops = ops[:24] + ["f"] * 4
+            r = seq_run(N, ops, "seq-odd-size")
+            r["conf"][0] = "conf %d 0" % nbytes
+            runs.append(r)
     return runs
 
 
